@@ -29,9 +29,9 @@ Record env := {
 
 (* THE switch between the code as it is and the code with pending_fixes/C19-1 applied
    (32-byte proof nodes enforced): flip to [true] when the fix is committed. *)
-Definition code_is_strict : bool := false.
+Definition code_is_strict : bool := true.
 (* ... and for pending_fixes/C19-2 (refusals and no-ops answered with the held STH cosigned). *)
-Definition code_cosigns_held : bool := false.
+Definition code_cosigns_held : bool := true.
 
 Definition env_idhash (e : env) (id : logid) : option (option bytes) :=
   match find (fun x => bytes_eqb (fst x) id) (e_logs e) with Some x => Some (snd x) | None => None end.
